@@ -1230,7 +1230,8 @@ def run(ck):
         "== and != do reject it",
         "6.5.1.1p2 two generic associations with compatible types when neither is selected: "
         "`_Generic(1L, int: 1, T: 2, default: 0)` with `typedef int T;` accepted (generic_distinct_assocs_counterexample)",
-        "6.5.3.2p1 `&` applied to an object declared `register`; 6.7.6.3p10 `void` parameter that is named or not alone; "
+        "6.5.3.2p1 `&` applied to an object declared `register`; 6.7.6.3p4/p10 in a function DECLARATION that is not a definition: `void f(void b);`, `void f(int, void);` accepted "
+        "(a definition is rejected: decl.c \"parameter of function definition has incomplete type\"); "
         "6.8.6.1p1 goto into the scope of a variably modified identifier",
         "6.7.2.2 `enum E : _Bool { A = 2 };` accepted (known finding C05 enum-bool-range; enum_value_accept_sound_counterexample)",
     ]
